@@ -958,7 +958,7 @@ var stressHookNames = map[int]string{fox.VerifLockWait: "lw", fox.VerifLockAcqui
 // path parameters, an infix catch-all), sent by goroutines outside the recorded history while the tree below them is
 // being replaced. The handler reports the parameters it sees; they must be the ones of its own request (C05: no data
 // race, every request is routed atomically on one version; C12 under real concurrency).
-var stressEchoRoutes = []string{"static.example/e/{x}/{y}", "{h}.example/p/{x}", "/e/{x}/*{w}/end", "/q/{x}/{y}/{z}", "/i/{x}/"}
+var stressEchoRoutes = []string{"static.example/e/{x}/{y}", "{h}.example/p/{x}", "/e/{x}/*{w}/end", "/q/{x}/{y}/{z}", "/i/{x}/", "/rd/{x}/"}
 
 type echoMismatch struct {
 	Route string `json:"route"`
@@ -991,7 +991,9 @@ func echoOnce(rt *fox.Router, rng *rand.Rand) {
 	tok := func() string { return fmt.Sprintf("t%d", rng.Intn(1000000)) }
 	a, b, cc := tok(), tok(), tok()
 	var host, path, want, route string
-	switch rng.Intn(6) {
+	switch rng.Intn(7) {
+	case 6: // answered by the trailing-slash redirect handler: no route handler runs
+		route, host, path, want = stressEchoRoutes[5], "", "/rd/"+a, ""
 	case 0:
 		route, host, path, want = stressEchoRoutes[0], "static.example", "/e/"+a+"/"+b, "x="+a+";y="+b+";"
 	case 1:
@@ -1026,7 +1028,9 @@ func runStress(seed int64, keys []string, nW, nR, opsPerWorker int, yield bool) 
 	}
 	for _, p := range stressEchoRoutes {
 		var ro []fox.RouteOption
-		if strings.HasSuffix(p, "/") {
+		if strings.HasPrefix(p, "/rd/") {
+			ro = append(ro, fox.WithRedirectTrailingSlash(true))
+		} else if strings.HasSuffix(p, "/") {
 			ro = append(ro, fox.WithIgnoreTrailingSlash(true))
 		}
 		if _, err := rt.Handle("ECHO", p, echoHandler, ro...); err != nil {
